@@ -204,6 +204,7 @@ type fzState struct {
 	siteRuns   int
 	curSeed    []byte
 	judge      func(kind string, lo, hi int, seed, in []byte) int // 0 none, 1 crc, 2 length
+	negSize    func(kind string, lo, hi int, seed, in []byte) bool
 	origCanon  *fzRecList
 	// tailDropIsPartial: the target is a whole fetch response, where a partition
 	// that lost the tail of its records is the client's reading of partial trailing data
@@ -414,6 +415,10 @@ func (st *fzState) eval(kind string, in []byte, lo, hi int) {
 	case res.out.partial:
 		oc = "partial"
 		st.obs["partial"]++
+		if st.judge != nil && st.negSize != nil && st.negSize(kind, lo, hi, st.curSeed, in) {
+			st.viol("length-accepted", "legacy-message-size:negative-taken-for-truncation", fmt.Sprintf("%s (%s), mutation %s at [%d,%d): the size field of a legacy message is negative now and the set decodes without error, with the partial-trailing indication, as if it had been cut short; seed=%s input=%s",
+				st.tgt.name, st.tgt.outer, kind, lo, hi, vcHex(st.curSeed, 160), vcHex(in, 160)), len(in))
+		}
 	case res.out.rest > 0:
 		oc = "ok-rest-unread"
 		st.obs["accepted_rest_unread"]++
